@@ -288,6 +288,82 @@ pub fn answer(op: &[i64]) -> String {
         format!("ORDER-DEPENDENT hour/day: day first [{}] after hour-level queries [{}]", a, b)
       }
     }
+    18 => {
+      // day-level almanac and term-anchored series (each part on its own so that a refusal of one does not hide the rest)
+      let d = sd(p1, p2, p3);
+      let part = |f: &dyn Fn() -> String| guard(|| f()).unwrap_or_else(|_| "REFUSED".to_string());
+      let series = part(&|| format!("{:?}|{:?}|{:?}|{}|{}", d.get_nine_day().map(|x| x.to_string()), d.get_dog_day().map(|x| x.to_string()), d.get_plum_rain_day().map(|x| x.to_string()), d.get_phenology_day(), d.get_hide_heaven_stem_day()));
+      let look = part(&|| format!("{:?}|{:?}|{}", d.get_festival().map(|x| x.to_string()), d.get_legal_holiday().map(|x| x.to_string()), d.get_constellation()));
+      let lunar = part(&|| {
+        let l = d.get_lunar_day();
+        format!("{}|{}|{}|{}|{}|{}|{:?}|{}", l.get_duty(), l.get_twelve_star(), l.get_twenty_eight_star(), l.get_six_star(), l.get_phase(), l.get_minor_ren(), l.get_festival().map(|x| x.to_string()), l.get_fetus_day())
+      });
+      let nine = part(&|| format!("{}|{}", d.get_lunar_day().get_nine_star(), d.get_sixty_cycle_day().get_nine_star()));
+      let taboo = part(&|| {
+        let sc = d.get_sixty_cycle_day();
+        format!("{}|{}|{}|{}", sc.get_gods().len(), sc.get_recommends().iter().map(|x| x.get_name()).collect::<Vec<_>>().join(","), sc.get_avoids().len(), sc.get_twenty_eight_star())
+      });
+      format!("{}#{}#{}#{}#{}", series, look, lunar, nine, taboo)
+    }
+    19 => {
+      // hour-level almanac on both views
+      let t = SolarTime::from_ymd_hms(p1 as isize, p2 as usize, p3 as usize, (p4 % 24) as usize, 30, 0);
+      let part = |f: &dyn Fn() -> String| guard(|| f()).unwrap_or_else(|_| "REFUSED".to_string());
+      let a = part(&|| {
+        let h = t.get_sixty_cycle_hour();
+        format!("{}|{}|{}|{}|{}", h, h.get_twelve_star(), h.get_recommends().iter().map(|x| x.get_name()).collect::<Vec<_>>().join(","), h.get_avoids().len(), h.get_index_in_day())
+      });
+      let b = part(&|| {
+        let h = t.get_lunar_hour();
+        format!("{}|{}|{}|{}|{}", h, h.get_twelve_star(), h.get_minor_ren(), h.get_recommends().len(), h.get_avoids().iter().map(|x| x.get_name()).collect::<Vec<_>>().join(","))
+      });
+      let n = part(&|| format!("{}|{}", t.get_sixty_cycle_hour().get_nine_star(), t.get_lunar_hour().get_nine_star()));
+      let term = part(&|| format!("{}", t.get_term()));
+      format!("{}#{}#{}#{}", a, b, n, term)
+    }
+    20 => {
+      // year- and month-level attributes
+      let part = |f: &dyn Fn() -> String| guard(|| f()).unwrap_or_else(|_| "REFUSED".to_string());
+      let y = part(&|| {
+        let ly = LunarYear::from_year(p1 as isize);
+        format!("{}|{}|{}|{}|{}", ly.get_sixty_cycle(), ly.get_nine_star(), ly.get_jupiter_direction(), ly.get_kitchen_god_steed(), ly.get_leap_month())
+      });
+      let sy = part(&|| {
+        let s = tyme4rs::tyme::sixtycycle::SixtyCycleYear::from_year(p1 as isize);
+        let ms = s.get_months();
+        format!("{}|{}|{}|{}|{}", s.get_nine_star(), ms.len(), ms.first().map(|m| format!("{}@{}", m, m.get_first_day())).unwrap_or_default(), ms.last().map(|m| format!("{}@{}", m, m.get_first_day())).unwrap_or_default(), s.get_first_month().get_nine_star())
+      });
+      let lm = part(&|| {
+        let ms = valid_months(p1);
+        let m = LunarMonth::from_ym(p1 as isize, ms[(p2.rem_euclid(13) as usize) * ms.len() / 13] as isize);
+        format!("{}|{}|{}|{:?}|{}|{}", m, m.get_nine_star(), m.get_sixty_cycle(), m.get_fetus().map(|x| x.to_string()), m.get_minor_ren(), m.get_week_count((p2.rem_euclid(7)) as usize))
+      });
+      format!("{}#{}#{}", y, sy, lm)
+    }
+    21 => {
+      // weeks and festival stepping
+      let part = |f: &dyn Fn() -> String| guard(|| f()).unwrap_or_else(|_| "REFUSED".to_string());
+      let d = sd(p1, p2, p3);
+      let st = p4.rem_euclid(7) as usize;
+      let n = (p4 / 7).rem_euclid(21) - 10;
+      let w = part(&|| {
+        let w = d.get_solar_week(st);
+        let g = w.next(n as isize);
+        format!("{}|{}|{}|{}|{}", w.get_first_day(), w.get_index(), w.get_index_in_year(), g.get_first_day(), g.get_index())
+      });
+      let lw = part(&|| {
+        let lm = d.get_lunar_day().get_lunar_month();
+        let w = tyme4rs::tyme::lunar::LunarWeek::from_ym(lm.get_year(), lm.get_month_with_leap(), (p3.rem_euclid(4)) as usize, st);
+        let g = w.next(n as isize);
+        format!("{}|{}|{}|{}", w.get_first_day(), w.get_index(), g.get_first_day(), g.get_index())
+      });
+      let f = part(&|| {
+        let f = LunarFestival::from_index(p1 as isize, (p2.rem_euclid(13)) as usize).map(|f| f.next(n as isize));
+        let s = tyme4rs::tyme::festival::SolarFestival::from_index(p1 as isize, (p3.rem_euclid(10)) as usize).map(|f| f.next(n as isize));
+        format!("{:?}|{:?}", f.flatten().map(|x| format!("{}@{}", x, x.get_day().get_solar_day())), s.flatten().map(|x| x.to_string()))
+      });
+      format!("{}#{}#{}", w, lw, f)
+    }
     _ => "BADOP".to_string(),
   });
   match r {
@@ -316,6 +392,10 @@ fn op_desc(op: &[i64]) -> String {
     15 => format!("SolarMonth({},{}) day count, week count, day list", op[1], op[2]),
     16 => format!("SixtyCycleMonth::from_index({},{}).get_first_day()", op[1], op[2]),
     17 => format!("SolarTime({}-{}-{} {}:30).get_lunar_hour(): its day's views before and after hour-level queries", op[1], op[2], op[3], op[4] % 24),
+    18 => format!("SolarDay({}-{}-{}) term-anchored series, festivals/holiday, day almanac, day nine star, spirits and taboos", op[1], op[2], op[3]),
+    19 => format!("SolarTime({}-{}-{} {}:30) hour almanac on both views, hour nine star, term", op[1], op[2], op[3], op[4] % 24),
+    20 => format!("year {}: LunarYear / SixtyCycleYear attributes and month list, one lunar month (selector {})", op[1], op[2]),
+    21 => format!("SolarDay({}-{}-{}) solar and lunar week (start {}, step {}), festival stepping", op[1], op[2], op[3], op[4].rem_euclid(7), (op[4] / 7).rem_euclid(21) - 10),
     _ => "?".into(),
   }
 }
@@ -452,6 +532,10 @@ fn op_strategy() -> impl Strategy<Value = Vec<i64>> {
     3 => (civil_year2.clone(), 1i64..=12, 0i64..7).prop_map(|(y, m, s)| vec![15, y, m, s, 0]),
     3 => (civil_year2.clone(), 0i64..=25).prop_map(|(y, i)| vec![16, y.min(9997), i, 0, 0]),
     4 => (date.clone(), 0i64..24).prop_map(|((y, m, d), h)| vec![17, y.clamp(25, 9998), m, d.min(28), h]),
+    5 => date.clone().prop_map(|(y, m, d)| vec![18, y.clamp(2, 9997), m, d, 0]),
+    5 => (date.clone(), 0i64..24).prop_map(|((y, m, d), h)| vec![19, y.clamp(2, 9997), m, d, h]),
+    3 => (civil_year2.clone(), 0i64..91).prop_map(|(y, s)| vec![20, y.clamp(1, 9997), s, 0, 0]),
+    3 => (date.clone(), 0i64..147).prop_map(|((y, m, d), q)| vec![21, y.clamp(2, 9997), m, d, q]),
     // refused requests (invalid month, missing leap month, bad day, bad year, unreachable child limit)
     4 => (year.clone(), prop_oneof![Just(0i64), Just(13), Just(-13), Just(14), Just(-14)]).prop_map(|(y, m)| vec![0, y, m, 0, 0]),
     4 => (year.clone(), 1i64..=12).prop_map(|(y, k)| {
@@ -470,8 +554,52 @@ fn op_strategy() -> impl Strategy<Value = Vec<i64>> {
 fn history_strategy(maxlen: usize) -> impl Strategy<Value = Case> {
   // half of the histories are "clusters": every request is moved into the three years around one base year, so that
   // requests about neighbouring years/months (where a mis-keyed memo would confuse them) follow each other
-  (proptest::collection::vec(op_strategy(), 1..maxlen), prop_oneof![1 => Just(-1i64), 1 => 30i64..9990]).prop_map(|(mut ops, base)| {
-    if base >= 0 {
+  // a quarter are "neighbourhoods": every date-carrying request is moved to within 45 days of one base date (half of the
+  // time a date where the calendar is irregular: reform-era windows, the AD 24 hole, October 1582, the ends of the
+  // range), every month-carrying request to the lunar months around it - per-thread cursors and "last result" shortcuts
+  // are only wrong for requests close to the previous one
+  let special: Vec<i64> = vec![1724360, 1724389, 1730237, 1730265, 1808758, 1808787, 1729853, 1729882, 1729823, 1729912, 2299160, 2299161, 1721424 + 40, 1721424 + 400, 5373484 - 400, 5373484 - 40, 2415021, 2460311]
+    .into_iter()
+    .filter_map(|j| cal().index_of_jdn(j).map(|i| i as i64))
+    .collect();
+  let nsp = special.len();
+  let nb = prop_oneof![1 => 60i64..(NDAYS as i64 - 60), 1 => (0..nsp).prop_map(move |k| special[k])];
+  (proptest::collection::vec(op_strategy(), 1..maxlen), prop_oneof![2 => Just(-1i64), 2 => 30i64..9990, 2 => nb.prop_map(|i| 20_000 + i)]).prop_map(|(mut ops, base)| {
+    if base >= 20_000 {
+      let c = cal();
+      let b = base - 20_000;
+      for (k, op) in ops.iter_mut().enumerate() {
+        let off = (op[2] * 7 + op[3] * 31 + op[4] * 3 + k as i64 * 13).rem_euclid(91) - 45;
+        let i = (b + off).clamp(0, NDAYS as i64 - 1) as usize;
+        let (y, m, d) = c.ymd(i);
+        match op[0] {
+          2 | 3 | 5 | 12 | 14 | 18 | 19 | 21 if y >= 2 && y <= 9997 || matches!(op[0], 2 | 3 | 5 | 12 | 14) => {
+            op[1] = y;
+            op[2] = m;
+            op[3] = d;
+          }
+          10 | 17 if y >= 25 && y <= 9998 => {
+            op[1] = y;
+            op[2] = m;
+            op[3] = d.min(28);
+          }
+          0 | 1 | 8 | 9 if (0..=9999).contains(&op[1]) && op[2].abs() >= 1 && op[2].abs() <= 12 => {
+            // a valid request stays valid: the lunar month numbered like the civil month (or the one before) of that year
+            let yy = if op[0] == 9 { y.clamp(25, 9998) } else if op[0] == 8 { y.clamp(2, 9997) } else { y };
+            let ms = valid_months(yy);
+            let cand = if off < 0 { ((m + 10) % 12) + 1 } else { m };
+            if ms.contains(&op[2]) || ms.contains(&op[2].abs()) {
+              op[1] = yy;
+              op[2] = if ms.contains(&-cand) && k % 2 == 1 { -cand } else { cand };
+            }
+          }
+          4 | 7 | 11 | 15 | 16 | 20 if (1..=9998).contains(&op[1]) => {
+            op[1] = y.clamp(1, 9997);
+          }
+          _ => {}
+        }
+      }
+    } else if base >= 0 {
       for (k, op) in ops.iter_mut().enumerate() {
         if op[0] != 13 && (0..=9999).contains(&op[1]) {
           op[1] = base + (k as i64 % 3) - 1;
@@ -489,12 +617,76 @@ fn history_strategy(maxlen: usize) -> impl Strategy<Value = Case> {
   })
 }
 
+
+/// number of light observers of the `hammer` sub-check
+pub const LIGHT_KINDS: usize = 30;
+
+/// One narrow observation of the library (a single getter family) for the civil date with index `i` and an extra
+/// argument `e`: narrow on purpose, so that threads hammering it spend their time inside the same library code.
+pub fn light(kind: usize, i: i64, e: i64) -> String {
+  let c = cal();
+  let i = i.clamp(0, NDAYS as i64 - 1) as usize;
+  let (y, m, d) = c.ymd(i);
+  let h = e.rem_euclid(24);
+  let r = guard(|| {
+    let day = || sd(y, m, d);
+    let time = || SolarTime::from_ymd_hms(y as isize, m as usize, d as usize, h as usize, (e.rem_euclid(60)) as usize, 0);
+    match kind {
+      0 => format!("{}|{}|{}", day().get_index_in_year(), day().get_julian_day().get_day(), day().get_week()),
+      1 => day().get_lunar_day().to_string(),
+      2 => day().get_sixty_cycle_day().to_string(),
+      3 => { let t = day().get_term_day(); format!("{}|{}", t.get_solar_term(), t.get_day_index()) }
+      4 => format!("{:?}|{:?}|{:?}", day().get_nine_day().map(|x| x.to_string()), day().get_dog_day().map(|x| x.to_string()), day().get_plum_rain_day().map(|x| x.to_string())),
+      5 => format!("{}|{}", day().get_phenology_day(), day().get_hide_heaven_stem_day()),
+      6 => { let l = day().get_lunar_day(); format!("{}|{}|{}|{}", l.get_duty(), l.get_twelve_star(), l.get_twenty_eight_star(), l.get_six_star()) }
+      7 => format!("{}|{}", day().get_lunar_day().get_nine_star(), day().get_sixty_cycle_day().get_nine_star()),
+      8 => format!("{}|{}", time().get_sixty_cycle_hour().get_nine_star(), time().get_lunar_hour().get_nine_star()),
+      9 => format!("{}|{}", time().get_sixty_cycle_hour().get_twelve_star(), time().get_lunar_hour().get_eight_char()),
+      10 => time().get_sixty_cycle_hour().to_string(),
+      11 => { let cl = ChildLimit::from_solar_time(time(), if e % 2 == 0 { Gender::MAN } else { Gender::WOMAN }); format!("{}|{}", cl.get_end_time(), cl.get_start_decade_fortune().get_name()) }
+      12 => format!("{:?}|{:?}", LunarFestival::from_index(y as isize, (e.rem_euclid(13)) as usize).map(|f| f.get_day().to_string()), day().get_lunar_day().get_festival().map(|x| x.to_string())),
+      13 => format!("{:?}|{:?}", day().get_legal_holiday().map(|x| x.to_string()), day().get_festival().map(|x| x.to_string())),
+      14 => { let sc = day().get_sixty_cycle_day(); format!("{}|{}|{}", sc.get_gods().len(), sc.get_recommends().len(), sc.get_avoids().iter().map(|x| x.get_name()).collect::<Vec<_>>().join(",")) }
+      15 => { let sh = time().get_sixty_cycle_hour(); format!("{}|{}", sh.get_recommends().iter().map(|x| x.get_name()).collect::<Vec<_>>().join(","), time().get_lunar_hour().get_avoids().len()) }
+      16 => { let ly = LunarYear::from_year(y as isize); format!("{}|{}|{}", ly.get_leap_month(), ly.get_day_count(), ly.get_months().len()) }
+      17 => { let ms = valid_months(y); let lm = LunarMonth::from_ym(y as isize, ms[(e.rem_euclid(13) as usize) * ms.len() / 13] as isize); let g = lm.next((e.rem_euclid(9) - 4) as isize); format!("{}|{}|{}|{}", lm.get_day_count(), lm.get_first_julian_day().get_day(), g, g.get_first_julian_day().get_day()) }
+      18 => { let sy = tyme4rs::tyme::sixtycycle::SixtyCycleYear::from_year(y as isize); let ms = sy.get_months(); format!("{}|{}", ms.iter().map(|x| x.to_string()).collect::<Vec<_>>().join(","), ms[(e.rem_euclid(12)) as usize].get_first_day()) }
+      19 => { let mo = tyme4rs::tyme::sixtycycle::SixtyCycleMonth::from_index(y as isize, e.rem_euclid(12) as isize); format!("{}|{}|{}", mo, mo.get_first_day(), mo.get_nine_star()) }
+      20 => { let w = day().get_solar_week((e.rem_euclid(7)) as usize); format!("{}|{}|{}", w.get_first_day(), w.get_index(), w.get_index_in_year()) }
+      21 => { let lm = day().get_lunar_day().get_lunar_month(); let w = tyme4rs::tyme::lunar::LunarWeek::from_ym(lm.get_year(), lm.get_month_with_leap(), (e.rem_euclid(4)) as usize, (e.rem_euclid(7)) as usize); format!("{}|{}", w.get_first_day(), w.next(1).get_first_day()) }
+      22 => { let t = time(); let j = t.get_julian_day(); format!("{}|{}|{}", j.get_solar_time(), j.get_solar_day(), t.next((e * 977) as isize)) }
+      23 => { let ly = LunarYear::from_year(y as isize); format!("{}|{}|{}", ly.get_nine_star(), ly.get_jupiter_direction(), ly.get_kitchen_god_steed()) }
+      24 => { let t = tyme4rs::tyme::solar::SolarTerm::from_index(y as isize, e.rem_euclid(30) as isize - 3); format!("{}|{}|{}", t.get_julian_day().get_day(), t.get_cursory_julian_day(), t.next((e.rem_euclid(61) - 30) as isize).get_julian_day().get_day()) }
+      25 => { let l = day().get_lunar_day(); let l2 = LunarDay::from_ymd(l.get_year(), l.get_month(), l.get_day()); format!("{}|{}|{}", l2.get_solar_day(), l2.get_sixty_cycle(), l2.next((e.rem_euclid(81) - 40) as isize)) }
+      26 => { let lh = time().get_lunar_hour(); let g = lh.next((e.rem_euclid(25) - 12) as isize); format!("{}|{}|{}", g, g.get_solar_time(), g.get_sixty_cycle_hour()) }
+      27 => { let l = day().get_lunar_day(); format!("{}|{:?}|{}|{}", l.get_fetus_day(), l.get_lunar_month().get_fetus().map(|x| x.to_string()), l.get_minor_ren(), l.get_phase()) }
+      28 => { let sc = day().get_sixty_cycle_day().get_sixty_cycle(); let hs = sc.get_heaven_stem(); let eb = sc.get_earth_branch(); format!("{}|{}|{}|{}|{}", hs.get_terrain(eb.clone()), sc.get_sound(), sc.get_ten(), hs.get_ten_star(tyme4rs::tyme::sixtycycle::HeavenStem::from_index(e as isize)), eb.get_hide_heaven_stems().iter().map(|x| x.get_name()).collect::<Vec<_>>().join(",")) }
+      _ => { let ec = time().get_lunar_hour().get_eight_char(); format!("{}|{}|{}|{}", ec.get_fetal_origin(), ec.get_fetal_breath(), ec.get_own_sign(), ec.get_body_sign()) }
+    }
+  });
+  r.unwrap_or_else(|_| "REFUSED".to_string())
+}
+
+/// one step of background noise for the concurrent passes of the other properties: a cheap narrow query about a
+/// pseudo-random date (the answer is dropped; refusals are fine)
+pub fn noise_step(n: u64) {
+  const CHEAP: [usize; 20] = [0, 1, 2, 3, 4, 5, 6, 7, 8, 10, 13, 16, 19, 20, 22, 23, 24, 25, 27, 28];
+  let kind = CHEAP[(n % CHEAP.len() as u64) as usize];
+  let i = 400 + (mix(n) % (NDAYS as u64 - 5000)) as i64;
+  let e = (mix(n ^ 0x55) % 1000) as i64;
+  let _ = light(kind, i, e);
+}
+
+fn light_desc(kind: usize) -> &'static str {
+  ["day of year / day count / weekday", "civil -> lunar date", "sexagenary day", "term day", "Nines / Dog days / Plum rains", "pentad / commanding stem", "duty / twelve spirits / mansion / six star", "day nine star (both views)", "hour nine star (both views)", "hour twelve spirits / eight characters", "sexagenary hour (four pillars)", "child limit", "lunar festival by index / by date", "legal holiday / civil festival", "day spirits and taboos", "hour taboos", "lunar year (leap month, length, months)", "lunar month and stepping", "sexagenary year month list", "sexagenary month first day", "solar week", "lunar week", "Julian date <-> instant, second stepping", "year nine star / Jupiter / kitchen god", "solar term instant and stepping", "lunar date -> civil, stepping", "lunar hour stepping", "foetus spirits / minor Ren / phase", "stem-branch relations", "eight-character derived pillars"][kind.min(29)]
+}
+
 fn ops_of(case: &Case) -> Vec<Vec<i64>> {
   case.a.chunks(OPW).filter(|c| c.len() == OPW).map(|c| c.to_vec()).collect()
 }
 
 fn is_lunar_op(op: &[i64]) -> bool {
-  matches!(op[0], 0..=17)
+  matches!(op[0], 0..=21)
 }
 
 /// classify a history (non-trivial rule) and count generator classes
@@ -706,6 +898,59 @@ impl C10 {
     }
   }
 
+
+  /// a = [kind, loops, i1, e1, i2, e2, ...]: one light observer, its answers computed one by one on a single thread, then
+  /// hammered by 8 threads at once (each starts at a different argument and loops over all of them `loops` times)
+  fn eval_hammer(&self, env: &Env, out: &mut Out, case: &Case) {
+    if case.a.len() < 4 || BLOCKED.load(Ordering::SeqCst) {
+      return;
+    }
+    let kind = case.a[0].rem_euclid(LIGHT_KINDS as i64) as usize;
+    let loops = case.a[1].clamp(1, 2000) as usize;
+    let args: Vec<(i64, i64)> = case.a[2..].chunks(2).filter(|c| c.len() == 2).map(|c| (c[0], c[1])).collect();
+    out.eval("hammer");
+    out.nontrivial("hammer", &case.a);
+    clean_state();
+    let a2 = args.clone();
+    let refs: Vec<String> = std::thread::spawn(move || a2.iter().map(|(i, e)| light(kind, *i, *e)).collect()).join().unwrap_or_default();
+    if refs.len() != args.len() {
+      out.skip("hammer_reference_thread_failed");
+      return;
+    }
+    clean_state();
+    out.class_n("hammered_requests", (args.len() * loops * 8) as u64);
+    if out.wants_sample("hammer", true) {
+      out.sample("hammer", true, || json!({"observer": light_desc(kind), "arguments": args.len(), "threads": 8, "loops": loops, "first_answer": refs.first()}));
+    }
+    let n = args.len();
+    let bad: Vec<Option<(usize, String)>> = std::thread::scope(|sc| {
+      let (args, refs) = (&args, &refs);
+      let hs: Vec<_> = (0..8usize)
+        .map(|t| {
+          sc.spawn(move || {
+            for l in 0..loops {
+              for j in 0..n {
+                let p = (j + t * n / 8 + l) % n;
+                let g = light(kind, args[p].0, args[p].1);
+                if g != refs[p] {
+                  return Some((p, g));
+                }
+              }
+            }
+            None
+          })
+        })
+        .collect();
+      hs.into_iter().map(|h| h.join().unwrap_or(None)).collect()
+    });
+    if let Some((p, g)) = bad.into_iter().flatten().next() {
+      let c = cal();
+      let (i, e) = args[p];
+      out.fail(env, Viol { sub: "hammer".into(), kind: "answer_differs_under_concurrent_use".into(), case: case.clone(), key: key(&[("observer", kind as i64), ("jdn", c.jdn(i.clamp(0, NDAYS as i64 - 1) as usize)), ("e", e)]), desc: format!("{} of {} (extra argument {}) while 8 threads ask the same observer about {} dates", light_desc(kind), c.fmt(i.clamp(0, NDAYS as i64 - 1) as usize), e, n), expected: format!("{} (one by one on a single thread)", refs[p]), got: g });
+    }
+    clean_state();
+  }
+
   /// the same requests issued concurrently by 16 threads from a shared queue
   fn eval_threads(&self, env: &Env, out: &mut Out, case: &Case) {
     let ops = ops_of(case);
@@ -794,7 +1039,7 @@ impl Prop for C10 {
   }
   fn meta(&self, _env: &Env) -> Meta {
     Meta {
-      rule: "Requests: LunarMonth::from_ym, LunarDay::new (+3 getter orders over the per-value memos), SolarDay->lunar, SixtyCycleDay, LunarFestival::from_index, eight characters, ChildLimit, LunarYear month list, LunarMonth::next; each answer is a canonical string of all observable fields, a refusal (Err or panic) is REFUSED. Generators: (1) `collide`: both orders of every pair of valid (year, month) requests whose undelimited concatenation year||month or month||year coincides (complete), and `collide_arith`: both orders of pairs that coincide under 25 arithmetic key functions (year*k+month, year*k+|month| for k in 10..64, leap twins, xor/shift packings), up to 400/4000 pairs per function; (2) `history`: proptest vec(op, 1..60), 40% of years from a 30-year pool of neighbouring/colliding years, ~22% injected refused requests (month 0/13/-13, leap month the year lacks, day 0/31/32, year -2/-1/10000, child limits ending outside the supported range or in the 1582 gap); (3) `threads`: proptest-generated request lists issued by 16 threads from a shared queue (a round in which no request completes for 1 min + 300x the one-by-one time is reported as blocked); (4) `fresh`: proptest histories executed in a fresh process and each request alone in its own fresh process (no hooks). Half of the histories are clusters (all requests moved into the three years around one base year). Requests also cover solar terms incl. year-carrying indices, day->term, Julian date -> day/instant/weekday, civil day arithmetic, civil month lists, sexagenary months, and single requests that internally compare 'views read first' with 'not read' (reported as ORDER-DEPENDENT). Oracle: answer inside the history (run in its own fresh thread) == answer of the same request from a pristine state (guarded hooks empty the memo and clear lock poison; a brand-new thread gives pristine thread-locals) == answer in a fresh process; a history whose next request does not return within 1 min + 300x its pristine time is reported as blocked. Non-trivial: the history contains two lunar-month requests with equal concatenated digits, a month and its leap twin, or a refusal followed by at least one valid request; every threaded round is non-trivial. Distinct = distinct op sequences.".into(),
+      rule: "Requests: LunarMonth::from_ym, LunarDay::new (+3 getter orders over the per-value memos), SolarDay->lunar, SixtyCycleDay, LunarFestival::from_index, eight characters, ChildLimit, LunarYear month list, LunarMonth::next; each answer is a canonical string of all observable fields, a refusal (Err or panic) is REFUSED. Generators: (1) `collide`: both orders of every pair of valid (year, month) requests whose undelimited concatenation year||month or month||year coincides (complete), and `collide_arith`: both orders of pairs that coincide under 25 arithmetic key functions (year*k+month, year*k+|month| for k in 10..64, leap twins, xor/shift packings), up to 400/4000 pairs per function; (2) `history`: proptest vec(op, 1..60), 40% of years from a 30-year pool of neighbouring/colliding years, ~22% injected refused requests (month 0/13/-13, leap month the year lacks, day 0/31/32, year -2/-1/10000, child limits ending outside the supported range or in the 1582 gap); (3) `threads`: proptest-generated request lists issued by 16 threads from a shared queue (a round in which no request completes for 1 min + 300x the one-by-one time is reported as blocked); (3b) `hammer`: 30 narrow observers (one getter family each: day of year, lunar date, pillars, term day, the term-anchored series, almanac cycles, nine stars of day and hour, taboos, child limit, festivals, holidays, weeks, lunar/sexagenary years and months, Julian dates, stepping, stem-branch relations), each asked about 48 proptest dates one by one and then by 8 threads at once in tight loops (dense contention inside one piece of library code); (4) `fresh`: proptest histories executed in a fresh process and each request alone in its own fresh process (no hooks). A third of the histories are clusters (all requests moved into the three years around one base year) and a third are neighbourhoods (all date-carrying requests within 45 days of one base date, half of the time a date where the calendar is irregular; month-carrying requests in the lunar months around it). Requests also cover solar terms incl. year-carrying indices, day->term, Julian date -> day/instant/weekday, civil day arithmetic, civil month lists, sexagenary months, and single requests that internally compare 'views read first' with 'not read' (reported as ORDER-DEPENDENT). Oracle: answer inside the history (run in its own fresh thread) == answer of the same request from a pristine state (guarded hooks empty the memo and clear lock poison; a brand-new thread gives pristine thread-locals) == answer in a fresh process; a history whose next request does not return within 1 min + 300x its pristine time is reported as blocked. Non-trivial: the history contains two lunar-month requests with equal concatenated digits, a month and its leap twin, or a refusal followed by at least one valid request; every threaded round is non-trivial. Distinct = distinct op sequences.".into(),
       assumptions: vec![
         "The in-process oracle trusts the verif-hooks reset/clear_poison accessors to restore a pristine state; the `fresh` sub-check does not use them and cross-checks this on sampled histories".into(),
         "Thread interleavings are whatever the OS scheduler produces in this run (sampled, not enumerated); a threaded violation may not reproduce from its replay file".into(),
@@ -804,7 +1049,7 @@ impl Prop for C10 {
     }
   }
   fn plan(&self, env: &Env) -> Vec<TaskSpec> {
-    vec![task("collide", 4), task("history", 16), task("threads", env.tier.pick(4, 16)), task("fresh", 16)]
+    vec![task("collide", 4), task("history", 16), task("threads", env.tier.pick(4, 16)), task("hammer", env.tier.pick(5, 15)), task("fresh", 16)]
   }
   fn run(&self, env: &Env, t: &str, shard: usize, nshards: usize, out: &mut Out) {
     let ev = |e: &Env, o: &mut Out, s: &str, cs: &Case| self.eval(e, o, s, cs);
@@ -860,13 +1105,54 @@ impl Prop for C10 {
         out.set_exhaustive("history", false);
       }
       "threads" => {
-        let rounds = env.tier.pick(2, 14);
+        let rounds = env.tier.pick(4, 16);
         for r in 0..rounds {
           let strat = proptest::collection::vec(op_strategy(), 3000..4001).prop_map(|ops| Case::ints(&ops.concat()));
           let c = sample_strategy(&strat, mix(env.seed ^ ((shard * 1000 + r) as u64) ^ 0x7157));
+          // every other round is concentrated on two request kinds (their requests repeated in a scrambled order), so that
+          // the 16 threads are inside the same library code with different arguments at the same moment
+          let c = if r % 2 == 1 {
+            let (k1, k2) = sample_strategy(&(0i64..22, 0i64..22), mix(env.seed ^ ((shard * 1000 + r) as u64) ^ 0xc0c0));
+            let ops: Vec<Vec<i64>> = ops_of(&c).into_iter().filter(|o| o[0] == k1 || o[0] == k2).collect();
+            if ops.len() >= 20 {
+              out.class("thread_rounds_concentrated_on_two_request_kinds");
+              let n = ops.len();
+              let mut flat: Vec<i64> = vec![];
+              for j in 0..3000usize {
+                flat.extend_from_slice(&ops[(j * 7919 + j / n) % n]);
+              }
+              Case::ints(&flat)
+            } else {
+              c
+            }
+          } else {
+            c
+          };
           run_case(env, out, "threads", &c, &ev);
         }
         out.set_exhaustive("threads", false);
+      }
+      "hammer" => {
+        // every light observer: 48 dates (proptest: half from 6 different years spread over the range, half within 60 days
+        // of irregular dates), hammered by 8 threads
+        for kind in (0..LIGHT_KINDS).filter(|k| k % nshards == shard) {
+          let reps = env.tier.pick(2, 8);
+          for rep in 0..reps {
+            let strat = proptest::collection::vec((prop_oneof![3 => 400i64..(NDAYS as i64 - 4500), 1 => prop_oneof![Just(2914i64), Just(8436), Just(8813), Just(87334), Just(577736), Just(693595), Just(739000)].prop_flat_map(|b| (b - 60)..(b + 60))], 0i64..1000), 48).prop_map(move |v| {
+              let mut a = vec![kind as i64, 0];
+              for (i, e) in v {
+                a.push(i);
+                a.push(e);
+              }
+              Case::ints(&a)
+            });
+            let mut c = sample_strategy(&strat, mix(env.seed ^ ((kind * 100 + rep) as u64) ^ 0x4a11));
+            // fixed work per observer: heavy observers loop less
+            c.a[1] = match kind { 11 | 18 | 21 | 12 | 17 => env.tier.pick(6, 20), 14 | 15 | 9 | 26 | 29 => env.tier.pick(20, 60), _ => env.tier.pick(60, 200) };
+            run_case(env, out, "hammer", &c, &ev);
+          }
+        }
+        out.set_exhaustive("hammer", false);
       }
       "fresh" => {
         // two-request histories in fresh processes for requests whose year/month digits collide, for the lunar
@@ -895,6 +1181,7 @@ impl Prop for C10 {
       "collide" | "collide_arith" | "history" => self.eval_history(env, out, sub, case),
       "fresh" => self.eval_fresh(env, out, case),
       "threads" => self.eval_threads(env, out, case),
+      "hammer" => self.eval_hammer(env, out, case),
       _ => panic!("unknown sub-check {}", sub),
     }
   }
